@@ -321,7 +321,12 @@ def extra_units():
     from pyvc.units import share
     # ... and the multiprocess job loop declares the read group of every fragment it writes (C08's unit)
     # ... and the parts the workers wrote are all merged, whatever they hold (C20's merge_bams unit)
-    return [share(c20.sort_and_index, PROP), share(c08.run_task_rg, PROP), share(c20.merge_bams, PROP)]
+    # ... and a fragment is stored in exactly one molecule (its records are written once): C06's assignment units
+    from contracts import c06
+    assign = [share(u, PROP) for u in c06.UNITS if getattr(u, 'name', '').startswith('MoleculeIterator.assign_fragment')]
+    # ... and every read group collected while writing is declared in the output header (C20's header units)
+    rg = [share(c20.add_rg, PROP), share(c20.add_rg_existing, PROP)]
+    return [share(c20.sort_and_index, PROP), share(c08.run_task_rg, PROP), share(c20.merge_bams, PROP)] + assign + rg
 
 
 # ------------------------------------------------------------------------------ get_contigs_with_reads: which contigs get a job
